@@ -494,38 +494,36 @@ theorem target_final2 {t1 t2 target : Path} (n1 n2 : Content) (d : Distinct t1 t
       · subst h; exact absurd hzr hs
       · exact ⟨z, h, hzr⟩
 
+theorem interleave_seq : ∀ (xs ys : List Step),
+    Interleave xs ys (xs.map (fun x => (true, x)) ++ ys.map (fun y => (false, y))) := by
+  intro xs
+  induction xs with
+  | nil =>
+    intro ys
+    induction ys with
+    | nil => exact .nil
+    | cons y r ih => exact .right ih
+  | cons x r ih => intro ys; exact .left (ih ys)
+
 /-- every schedule yields an interleaving -/
-theorem merge_interleave : ∀ (n : Nat) (sch : List Bool) (xs ys : List Step), xs.length + ys.length = n →
-    Interleave xs ys (merge sch xs ys) := by
-  intro n
-  induction n with
-  | zero =>
-    intro sch xs ys h
-    have hx : xs = [] := List.length_eq_zero_iff.mp (by omega)
-    have hy : ys = [] := List.length_eq_zero_iff.mp (by omega)
-    subst hx; subst hy
-    simp [merge]; exact .nil
-  | succ n ih =>
-    intro sch xs ys h
-    cases xs with
-    | nil =>
-      cases ys with
-      | nil => simp at h
-      | cons y ys =>
-        have := ih sch [] ys (by simp at h ⊢; omega)
-        simp [merge] at this ⊢
-        exact .right this
-    | cons x xs =>
+theorem merge_interleave : ∀ (sch : List Bool) (xs ys : List Step), Interleave xs ys (merge sch xs ys) := by
+  intro sch
+  induction sch with
+  | nil => intro xs ys; exact interleave_seq xs ys
+  | cons b sch ih =>
+    intro xs ys
+    cases b with
+    | true =>
+      cases xs with
+      | nil => exact ih [] ys
+      | cons x xs => exact .left (ih xs ys)
+    | false =>
       cases ys with
       | nil =>
-        have := ih sch xs [] (by simp at h ⊢; omega)
-        cases xs <;> simp [merge] at this ⊢ <;> exact .left this
+        have := ih xs []
+        cases xs <;> exact this
       | cons y ys =>
-        cases sch with
-        | nil => simp [merge]; exact .left (ih [] xs (y :: ys) (by simp at h ⊢; omega))
-        | cons b sch =>
-          cases b
-          · simp [merge]; exact .right (ih sch (x :: xs) ys (by simp at h ⊢; omega))
-          · simp [merge]; exact .left (ih sch xs (y :: ys) (by simp at h ⊢; omega))
+        have := ih xs ys
+        cases xs <;> exact .right this
 
 end PromVerif.Model.Textfile
